@@ -602,6 +602,19 @@ def _hist_job(h):
                             at += n
                         expected = expected.iloc[keep].reset_index(drop=True)
                         frames = []
+                    elif st["via"] == "derived":
+                        # append through a handle DERIVED from the long-lived one: a slice (the dataset becomes the slice + the new rows; the
+                        # part files of the dropped row groups stay behind, unnamed) or a copy
+                        import copy as _copy
+                        if st["how"] == "slice" and len(pf.row_groups) >= 2:
+                            k = pf.row_groups[0].num_rows
+                            sub = pf[1:]
+                            expected = expected.iloc[k:].reset_index(drop=True)
+                            any_failed = True          # (files not named by _metadata are expected from here on)
+                        else:
+                            sub = _copy.copy(pf)
+                        sub.write_row_groups(frames[0], compression=o["compression"], stats=o["stats"])
+                        pf = fastparquet.ParquetFile(path)
                     elif st["via"] == "overwrite":
                         # append='overwrite' on a partitioned dataset: the partitions the new frame has values for are replaced
                         pkn = o["partition"]["name"]
@@ -759,6 +772,9 @@ def gen_renumber_histories(ctx):
                 steps.append({"via": rng.choice(["handle", "fresh"]), "frames": [2], "seeds": [rng.randrange(1 << 30)], "offsets": None, "fail": None})
         if not any(st["via"] == "remove" for st in steps):
             steps.insert(0, {"via": "remove", "remove": [rng.randrange(0, p0 - 1)], "sort_pnames": True, "frames": [], "seeds": [], "offsets": None, "fail": None})
+        if i % 2 == 0:
+            steps.insert(rng.randrange(len(steps) + 1), {"via": "derived", "how": rng.choice(["slice", "slice", "copy"]), "frames": [2],
+                                                         "seeds": [rng.randrange(1 << 30)], "offsets": None, "fail": None})
         hs.append({"spec": spec, "opts": o, "steps": steps, "multi": True, "renumber": True})
     for i in range(4 if ctx.quick() else 40):
         # partitioned dataset, append='overwrite' (part files of the replaced partitions go, the rest is renumbered)
